@@ -340,6 +340,11 @@ func (x *Exec) execInstr(fr *Frame, n *Node, st *State, in ssa.Instruction) *Nod
 			x.storePlace(n, st, p, x.ss.zero(et))
 		}
 	case *ssa.Store:
+		if fa, ok := in.Addr.(*ssa.FieldAddr); ok && fr.depth == 0 && fr.contract != nil && len(fr.contract.Asserts) > 0 {
+			if si := x.ss.structInfoOf(deref(fa.X.Type())); si != nil {
+				x.atAsserts(fr, n, st, "store", []string{si.fields[fa.Field].name}, in)
+			}
+		}
 		v := x.val(fr, n, st, in.Val)
 		p := x.placeOf(fr, n, st, in.Addr)
 		if p == nil {
